@@ -17,6 +17,7 @@ type RevSpec struct {
 	InObjStm    map[int]bool // objects to pack into object streams (stream revisions only)
 	ObjStms     int          // how many containers to spread them over (>=1)
 	ObjStmFlate bool
+	TableAfterStream bool // allow a classic table in an update of a file that already has a cross-reference stream
 	XRefFlate   int    // 0 none, 1 flate, 2 flate + PNG Up predictor
 	WidePad     int    // extra bytes in /W fields
 	Shuffle     uint64 // file order of the objects of this revision
@@ -102,8 +103,10 @@ func (w *Writer) Commit(rs RevSpec) []byte {
 	} else if w.r.Pct(50) {
 		w.buf.WriteString(w.eol())
 	}
-	if !rs.XRefStream && w.anyStreamXRef {
-		// legal histories only: never a table after a stream
+	if !rs.XRefStream && w.anyStreamXRef && !rs.TableAfterStream {
+		// by default never a table after a stream (what every producer does); a caller
+		// may ask for it: /Prev of a classic trailer names "the previous cross-reference
+		// section", of whichever kind
 		rs.XRefStream = true
 	}
 	set := map[int]Obj{}
